@@ -80,8 +80,9 @@ func TestC29(t *testing.T) {
 	r.Assume("Forward-level observations are taken from Gate's own log events ('failed to try backend', 'forwarding connection', 'failed to find route' and their backendAddr/route/virtualHost values) through an injected logr sink, cross-checked by loopback listeners' accept counts")
 
 	// ---- 1. function level ----------------------------------------------------------------
-	nFn := r.N(60000, 5000000)
-	workers := 8
+	fnStart := time.Now()
+	nFn := r.N(60000, 2400000)
+	workers := 12
 	var (
 		matched, unmatched, conflicts, groupsChecked, nlHosts atomic.Int64
 		classMu                                               sync.Mutex
@@ -178,6 +179,7 @@ func TestC29(t *testing.T) {
 	}
 	wg.Wait()
 	lite.ResetPingCache()
+	r.Set("fn_phase_wall_s", time.Since(fnStart).Seconds())
 	r.Set("fn_matched", matched.Load())
 	r.Set("fn_unmatched", unmatched.Load())
 	r.Set("fn_first_match_decisive", conflicts.Load())
@@ -250,11 +252,37 @@ func distinctInOrder(xs []string) []string {
 	return out
 }
 
+type fwTotals struct {
+	mu                                                                                                           sync.Mutex
+	candChecked, substChecked, substSkippedAmbiguous, guardAborts, noRouteSeen, caseVariant, unmatchedOK, liveOK int
+	accepts                                                                                                      int64
+}
+
 func forwardLevel(r *lib.Run) {
-	rng := r.Rng("forward")
-	nCand := r.N(1200, 60000)
-	nUnmatched := r.N(250, 10000)
-	nLive := r.N(150, 5000)
+	const W = 4
+	var tot fwTotals
+	var wg sync.WaitGroup
+	for wk := 0; wk < W; wk++ {
+		wg.Add(1)
+		go func(wk int) {
+			defer wg.Done()
+			forwardWorker(r, wk, r.N(1200, 24000)/W, r.N(250, 4000)/W, r.N(150, 2000)/W, &tot)
+		}(wk)
+	}
+	wg.Wait()
+	r.Set("fw_candidate_lists_checked", tot.candChecked)
+	r.Set("fw_substitutions_checked", tot.substChecked)
+	r.Set("fw_substitutions_skipped_too_ambiguous", tot.substSkippedAmbiguous)
+	r.Set("fw_case_variant_accepted", tot.caseVariant)
+	r.Set("fw_retry_guard_aborts_left_to_C30", tot.guardAborts)
+	r.Set("fw_no_route_events_seen", tot.noRouteSeen)
+	r.Set("fw_unmatched_no_dial_confirmed", tot.unmatchedOK)
+	r.Set("fw_live_substitution_dials_confirmed", tot.liveOK)
+	r.Set("fw_listener_accepts_total", tot.accepts)
+}
+
+func forwardWorker(r *lib.Run, wk, nCand, nUnmatched, nLive int, tot *fwTotals) {
+	rng := r.Rng(fmt.Sprintf("forward-%d", wk))
 
 	var accepts atomic.Int64
 	be, err := litefwd.Listen(0, func(c net.Conn, idx int) {
@@ -284,7 +312,9 @@ func forwardLevel(r *lib.Run) {
 			i--
 			continue // mostly matched cases here; unmatched ones are 2b's business
 		}
-		r.LogCase(c)
+		if wk == 0 {
+			r.LogCase(c)
+		}
 		nb := 0
 		for _, rt := range c.Routes {
 			nb += len(rt.Backends)
@@ -391,7 +421,7 @@ func forwardLevel(r *lib.Run) {
 			r.Violation(sig, "the backend addresses Forward tried are not the simultaneous $n substitution of the route's backends for any consistent group split",
 				map[string]any{"raw_host": c.Raw, "cleaned": cleaned, "pattern": wantPat, "templates": c.Routes[refRi].Backends, "gate_tried": o.Tries, "reference_first_split": firstWant, "splits": splits})
 		}
-		if r.WantSample() {
+		if wk == 0 && r.WantSample() {
 			r.Sample(map[string]any{"level": "forward", "raw_host": c.Raw, "pattern": wantPat, "templates": c.Routes[refRi].Backends, "gate_tried": o.Tries})
 		}
 	}
@@ -475,13 +505,15 @@ func forwardLevel(r *lib.Run) {
 		}
 	}
 
-	r.Set("fw_candidate_lists_checked", candChecked)
-	r.Set("fw_substitutions_checked", substChecked)
-	r.Set("fw_substitutions_skipped_too_ambiguous", substSkippedAmbiguous)
-	r.Set("fw_case_variant_accepted", caseVariant)
-	r.Set("fw_retry_guard_aborts_left_to_C30", guardAborts)
-	r.Set("fw_no_route_events_seen", noRouteSeen)
-	r.Set("fw_unmatched_no_dial_confirmed", unmatchedOK)
-	r.Set("fw_live_substitution_dials_confirmed", liveOK)
-	r.Set("fw_listener_accepts_total", accepts.Load())
+	tot.mu.Lock()
+	defer tot.mu.Unlock()
+	tot.candChecked += candChecked
+	tot.substChecked += substChecked
+	tot.substSkippedAmbiguous += substSkippedAmbiguous
+	tot.caseVariant += caseVariant
+	tot.guardAborts += guardAborts
+	tot.noRouteSeen += noRouteSeen
+	tot.unmatchedOK += unmatchedOK
+	tot.liveOK += liveOK
+	tot.accepts += accepts.Load()
 }
